@@ -123,6 +123,7 @@ type Exec struct {
 	anchorCalls     map[string]*ast.CallExpr // anchor (call:Name#k, append#k) -> the call expression
 	curCall         *ast.CallExpr            // the call a before/after point is attached to (for arg(i))
 	famElem         map[string]types.Type    // spawns mode: element type of each channel family, by element sort
+	callResults     map[*ast.CallExpr]Val    // value each executed call returned (for ret() in `after call:` points)
 	iterStart       map[int]*State           // state at the start of the current iteration of loop N (for pre(N, e))
 	lastLess        func(st *State, a, b string) string
 	curLoopWritable []string
